@@ -3,6 +3,10 @@ package hashring
 import (
 	"fmt"
 	"math/rand"
+	"net"
+	"os"
+	"sync"
+	"sync/atomic"
 	"testing"
 
 	"github.com/thanos-io/thanos/pkg/cacheutil"
@@ -28,7 +32,10 @@ func TestC49(t *testing.T) {
 		a, b := rnd.Intn(200), 1+rnd.Intn(20)
 		port := 11211
 		for i := 0; i < n; i++ {
-			switch style % 3 {
+			switch style % 4 {
+			case 3: // unix sockets with increasing numbers
+				b += 1 + rnd.Intn(4)
+				out = append(out, fmt.Sprintf("/var/run/memcached/mc-%d.sock", b))
 			case 0: // one subnet, increasing host part (2 < 10 in natural order)
 				b += 1 + rnd.Intn(9)
 				out = append(out, fmt.Sprintf("10.%d.0.%d:11211", a, b))
@@ -43,15 +50,36 @@ func TestC49(t *testing.T) {
 		return out
 	}
 	emit := func(yield func(vt.Case), n, pos int) {
-		all := mkServers(n+1, rnd.Intn(3))
+		all := mkServers(n+1, rnd.Intn(4))
 		nk := vt.Pick(200, 600)
-		yield(vt.Case{"kind": "place", "n": n + 1, "pos": 0, "servers": all, "add": "", "kseed": rnd.Int63n(1 << 30), "nkeys": nk, "pseed": rnd.Int63n(1 << 30)})
+		place := all
+		if rnd.Intn(4) == 0 { // a server listed twice gets twice the weight; placement must stay consistent
+			place = append(append([]string{}, all...), all[rnd.Intn(len(all))])
+		}
+		yield(vt.Case{"kind": "place", "n": n + 1, "pos": 0, "servers": place, "add": "", "kseed": rnd.Int63n(1 << 30), "nkeys": nk, "pseed": rnd.Int63n(1 << 30)})
 		old := append(append([]string{}, all[:pos-1]...), all[pos:]...)
 		yield(vt.Case{"kind": "add", "n": n, "pos": pos, "servers": old, "add": all[pos-1], "kseed": rnd.Int63n(1 << 30), "nkeys": nk, "pseed": rnd.Int63n(1 << 30)})
 	}
 	gen := func(yield func(vt.Case)) {
 		for _, c := range vt.TLCCases(t) {
 			emit(yield, vt.Int(c["n"]), vt.Int(c["pos"]))
+		}
+		if p := os.Getenv("VERIF_CASES_HASHRINGSELECTORMC"); p != "" { // phase 2: concurrent SetServers / lookups
+			cs, err := vt.ReadNDJSON(p)
+			if err != nil {
+				t.Fatalf("C49: %v", err)
+			}
+			for _, c := range cs {
+				na, nb, sh := vt.Int(c["na"]), vt.Int(c["nb"]), vt.Int(c["shared"])
+				pool := mkServers(na+nb-sh, rnd.Intn(4))
+				a := append([]string{}, pool[:na]...)
+				b := append([]string{}, pool[na-sh:na-sh+nb]...)
+				if rnd.Intn(4) == 0 && len(b) > 0 {
+					b = append(b, b[0]) // duplicate address in B
+				}
+				yield(vt.Case{"kind": "conc", "n": na, "pos": 0, "servers": a, "servers_b": b, "add": "",
+					"kseed": rnd.Int63n(1 << 30), "nkeys": 24, "pseed": rnd.Int63n(1 << 30), "iters": vt.Pick(300, 2000)})
+			}
 		}
 		for i, m := 0, vt.Pick(20, 200); i < m; i++ {
 			n := 1 + rnd.Intn(24)
@@ -94,6 +122,9 @@ func cacheKeys(seed int64, n int) []string {
 }
 
 func runC49(c vt.Case) vt.Event {
+	if vt.Str(c["kind"]) == "conc" {
+		return runC49Conc(c)
+	}
 	servers := vt.Strs(c["servers"])
 	add := vt.Str(c["add"])
 	keys := cacheKeys(vt.Int64(c["kseed"]), vt.Int(c["nkeys"]))
@@ -195,5 +226,160 @@ func runC49(c vt.Case) vt.Event {
 		return fail(err)
 	}
 	ev["ok"], ev["before"], ev["after"] = true, before, after
+	return ev
+}
+
+// runC49Conc (phase 2): SetServers (lists A, B and one that does not resolve) concurrent with
+// PickServer / PickServerForKeys / Each on ONE selector. Reference answers under A and under B
+// come from two selectors used sequentially beforehand.
+func runC49Conc(c vt.Case) vt.Event {
+	la, lb := vt.Strs(c["servers"]), vt.Strs(c["servers_b"])
+	keys := cacheKeys(vt.Int64(c["kseed"]), vt.Int(c["nkeys"]))
+	id := map[string]int{}
+	for _, s := range append(append([]string{}, la...), lb...) {
+		if _, ok := id[s]; !ok {
+			id[s] = len(id) + 1
+		}
+	}
+	ev := vt.Event{"ok": false, "msg": "", "pick_a": []int{}, "pick_b": []int{}, "picks": []any{}, "batches": []any{}, "eachs": []any{},
+		"list_a": []int{}, "list_b": []int{}, "crashes": 0, "set_errors": 0}
+	pickAll := func(s *cacheutil.MemcachedJumpHashSelector) []int {
+		out := make([]int, len(keys))
+		for i, k := range keys {
+			if a, err := s.PickServer(k); err == nil {
+				out[i] = id[a.String()]
+			}
+		}
+		return out
+	}
+	eachOf := func(s *cacheutil.MemcachedJumpHashSelector) []int {
+		out := []int{}
+		_ = s.Each(func(a net.Addr) error { out = append(out, id[a.String()]); return nil })
+		return out
+	}
+	batchOf := func(s *cacheutil.MemcachedJumpHashSelector) []int {
+		out := make([]int, len(keys)) // 0 = error / key missing
+		m, err := s.PickServerForKeys(keys)
+		if err != nil {
+			return out
+		}
+		pos := map[string]int{}
+		for i, k := range keys {
+			pos[k] = i
+		}
+		for srv, ks := range m {
+			for _, k := range ks {
+				out[pos[k]] = id[srv]
+			}
+		}
+		return out
+	}
+	var sa, sb cacheutil.MemcachedJumpHashSelector
+	if err := sa.SetServers(la...); err != nil {
+		ev["msg"] = errStr(err)
+		return ev
+	}
+	if err := sb.SetServers(lb...); err != nil {
+		ev["msg"] = errStr(err)
+		return ev
+	}
+	ev["pick_a"], ev["pick_b"], ev["list_a"], ev["list_b"] = pickAll(&sa), pickAll(&sb), eachOf(&sa), eachOf(&sb)
+
+	var sel cacheutil.MemcachedJumpHashSelector
+	_ = sel.SetServers(la...)
+	var mu sync.Mutex
+	picks := map[[2]int]bool{}
+	batches := map[string][]int{}
+	eachs := map[string][]int{}
+	crashes, setErrors := 0, 0
+	var ops atomic.Int64
+	guard := func(f func()) {
+		defer func() {
+			if p := recover(); p != nil {
+				mu.Lock()
+				crashes++
+				mu.Unlock()
+			}
+		}()
+		f()
+	}
+	iters := vt.Int(c["iters"])
+	stop := make(chan struct{})
+	var wg sync.WaitGroup
+	for g := 0; g < 3; g++ {
+		wg.Add(1)
+		go func(g int) {
+			defer wg.Done()
+			for n := 0; ; n++ {
+				select {
+				case <-stop:
+					return
+				default:
+				}
+				ops.Add(1)
+				guard(func() {
+					switch (n + g) % 3 {
+					case 0:
+						k := n % len(keys)
+						s := 0
+						if a, err := sel.PickServer(keys[k]); err == nil {
+							s = id[a.String()]
+						}
+						mu.Lock()
+						picks[[2]int{k + 1, s}] = true
+						mu.Unlock()
+					case 1:
+						b := batchOf(&sel)
+						mu.Lock()
+						batches[fmt.Sprint(b)] = b
+						mu.Unlock()
+					default:
+						e := eachOf(&sel)
+						mu.Lock()
+						eachs[fmt.Sprint(e)] = e
+						mu.Unlock()
+					}
+				})
+			}
+		}(g)
+	}
+	// the DNS refresh loop: at least iters updates, and until the readers have done some work
+	for i := 0; i < iters || (ops.Load() < 600 && i < 1000*iters); i++ {
+		guard(func() {
+			var err error
+			switch i % 3 {
+			case 0:
+				err = sel.SetServers(lb...)
+			case 1:
+				err = sel.SetServers(append(append([]string{}, la...), "10.1.2.3")...) // no port: must fail and change nothing
+				if err == nil {
+					err = fmt.Errorf("unresolvable list accepted")
+				} else {
+					err = nil
+				}
+			default:
+				err = sel.SetServers(la...)
+			}
+			if err != nil {
+				mu.Lock()
+				setErrors++
+				mu.Unlock()
+			}
+		})
+	}
+	close(stop)
+	wg.Wait()
+	pl := []any{}
+	for p := range picks {
+		pl = append(pl, map[string]any{"k": p[0], "s": p[1]})
+	}
+	bl, el := []any{}, []any{}
+	for _, b := range batches {
+		bl = append(bl, b)
+	}
+	for _, e := range eachs {
+		el = append(el, e)
+	}
+	ev["ok"], ev["picks"], ev["batches"], ev["eachs"], ev["crashes"], ev["set_errors"] = true, pl, bl, el, crashes, setErrors
 	return ev
 }
